@@ -623,6 +623,313 @@ impl Fx {
     }
 }
 
+//============ Accessor sweep ================================================
+//
+// "Equal" is also judged through the public accessors: every message that is
+// enumerated answers all its accessors (a) consistently with each other
+// (unpack / into_* agree with the by-reference accessors, convenience
+// variants with their siblings), (b) identically to its parsed twin and
+// (c), where the enumeration knows the constructor arguments, with exactly
+// what was put in. Differential throughout, no literal expectations.
+
+trait Sweep: Sized {
+    /// All accessor answers, rendered. Err = two accessors of one value disagree.
+    fn sweep(&self) -> Result<Vec<String>, String>;
+}
+
+macro_rules! agree { ($a:expr, $b:expr, $what:expr) => { match (&$a, &$b) { (a, b) => if a != b { return Err(format!("{}: {:?} vs {:?}", $what, a, b)) } } } }
+
+fn sweep_base64(b: &Base64, what: &str, o: &mut Vec<String>) -> Result<(), String> {
+    let bytes = b.to_bytes();
+    let indep = base64::Engine::encode(&base64::engine::general_purpose::STANDARD, bytes.as_ref());
+    agree!(b.as_str(), indep.as_str(), format!("{what}: Base64::as_str vs an independent encoding of to_bytes()"));
+    agree!(b.to_string(), indep, format!("{what}: Base64 Display vs as_str"));
+    agree!(b.to_hash(), Hash::from_data(bytes.as_ref()), format!("{what}: Base64::to_hash vs Hash::from_data(to_bytes())"));
+    let approx = b.size_approx();
+    // documented: "We can be off by up to 3 bytes"
+    if approx < bytes.len() || approx - bytes.len() > 3 { return Err(format!("{what}: size_approx() = {approx} for {} octets", bytes.len())) }
+    o.push(format!("{what}={}", show_bytes(bytes.as_ref())));
+    Ok(())
+}
+
+fn sweep_handle<T: Clone>(h: &idx::Handle<T>, what: &str, o: &mut Vec<String>) -> Result<(), String> {
+    let s = h.as_str().to_string();
+    agree!(h.name().as_ref(), s.as_str(), format!("{what}: Handle::name vs as_str"));
+    agree!(h.clone().into_name().as_ref(), s.as_str(), format!("{what}: into_name"));
+    agree!(h.convert::<idx::Myself>().as_str(), s.as_str(), format!("{what}: convert"));
+    agree!(h.clone().into_converted::<idx::Parent>().as_str(), s.as_str(), format!("{what}: into_converted"));
+    agree!(h.to_string(), s, format!("{what}: Display"));
+    agree!(AsRef::<[u8]>::as_ref(h), s.as_bytes(), format!("{what}: AsRef<[u8]>"));
+    let path = h.to_path_buf();
+    match idx::Handle::<T>::try_from(&path) {
+        Ok(back) => agree!(back.as_str(), s.as_str(), format!("{what}: Handle::try_from(&to_path_buf())")),
+        Err(_) => return Err(format!("{what}: to_path_buf() = {path:?} is refused by Handle::try_from")),
+    }
+    o.push(format!("{what}={s} path={path:?}"));
+    Ok(())
+}
+
+fn show_req_limit(l: &prov::RequestResourceLimit) -> Result<String, String> {
+    agree!(l.is_empty(), l.asn().is_none() && l.ipv4().is_none() && l.ipv6().is_none(), "RequestResourceLimit::is_empty vs the three accessors");
+    Ok(format!("limit({:?},{:?},{:?})", l.asn().map(|x| x.to_string()), l.ipv4().map(|x| x.to_string()), l.ipv6().map(|x| x.to_string())))
+}
+
+fn cert_id(c: &Cert) -> String { format!("cert:fnv{:016x}", fnv64(c.to_captured().as_slice())) }
+
+fn sweep_issued(i: &prov::IssuedCert, o: &mut Vec<String>) -> Result<(), String> {
+    let (uri, limit, cert) = i.clone().unpack();
+    agree!(&uri, i.uri(), "IssuedCert::unpack vs uri()");
+    agree!(&limit, i.req_limit(), "IssuedCert::unpack vs req_limit()");
+    agree!(cert_id(&cert), cert_id(i.cert()), "IssuedCert::unpack vs cert()");
+    o.push(format!("certificate(uri={},{},{})", i.uri(), show_req_limit(i.req_limit())?, cert_id(i.cert())));
+    Ok(())
+}
+
+fn sweep_class(c: &prov::ResourceClassEntitlements, o: &mut Vec<String>) -> Result<(), String> {
+    o.push(format!("class(name={:?},set=[{}|{}|{}],notafter={},issuer={} at {})", c.class_name().as_ref(), c.resource_set().asn(), c.resource_set().ipv4(),
+        c.resource_set().ipv6(), c.not_after().to_rfc3339(), cert_id(c.signing_cert().cert()), c.signing_cert().url()));
+    for i in c.issued_certs() { sweep_issued(i, o)? }
+    // into_issuance_response(key): the first certificate issued to that key, or None
+    let mut keys: Vec<&rpki::crypto::PublicKey> = c.issued_certs().iter().map(|i| i.cert().subject_public_key_info()).collect();
+    keys.push(c.signing_cert().cert().subject_public_key_info());
+    for k in keys {
+        let first = c.issued_certs().iter().find(|i| i.cert().subject_public_key_info() == k);
+        let got = c.clone().into_issuance_response(k);
+        match (first, got) {
+            (None, None) => o.push("into_issuance_response=None".into()),
+            (Some(i), Some(r)) => {
+                let want = prov::IssuanceResponse::new(c.class_name().clone(), c.resource_set().clone(), c.not_after(), i.clone(), c.signing_cert().clone());
+                if r != want { return Err("into_issuance_response(key) differs from IssuanceResponse::new over the accessors".into()) }
+                agree!(&r.into_issued(), i, "into_issuance_response(key).into_issued()");
+                o.push("into_issuance_response=Some".into());
+            }
+            (f, g) => return Err(format!("into_issuance_response(key): certificate for the key present = {}, result is_some = {}", f.is_some(), g.is_some())),
+        }
+    }
+    Ok(())
+}
+
+impl Sweep for prov::Message {
+    fn sweep(&self) -> Result<Vec<String>, String> {
+        let mut o = Vec::new();
+        sweep_handle(self.sender(), "sender", &mut o)?;
+        sweep_handle(self.recipient(), "recipient", &mut o)?;
+        let (s, r, p) = self.clone().unpack();
+        agree!(&s, self.sender(), "Message::unpack vs sender()");
+        agree!(&r, self.recipient(), "Message::unpack vs recipient()");
+        agree!(&p, self.payload(), "Message::unpack vs payload()");
+        agree!(&self.clone().into_payload(), self.payload(), "into_payload vs payload()");
+        agree!(self.is_list_response(), matches!(self.payload(), prov::Payload::ListResponse(_)), "is_list_response vs payload()");
+        agree!(self.is_list_response(), self.payload().payload_type().as_ref() == "list_response", "is_list_response vs payload_type()");
+        o.push(format!("type={}", self.payload().payload_type()));
+        match self.payload() {
+            prov::Payload::List => {}
+            prov::Payload::ListResponse(l) => { o.push(format!("classes={}", l.classes().len())); for c in l.classes() { sweep_class(c, &mut o)? } }
+            prov::Payload::Issue(r) => {
+                let (n, l, c) = r.clone().unpack();
+                agree!(&n, r.class_name(), "IssuanceRequest::unpack vs class_name()");
+                agree!(&l, r.limit(), "IssuanceRequest::unpack vs limit()");
+                agree!(fnv64(c.to_captured().as_slice()), fnv64(r.csr().to_captured().as_slice()), "IssuanceRequest::unpack vs csr()");
+                o.push(format!("request(class={:?},{},csr:fnv{:016x},{})", r.class_name().as_ref(), show_req_limit(r.limit())?, fnv64(r.csr().to_captured().as_slice()), r));
+            }
+            prov::Payload::IssueResponse(r) => sweep_issued(&r.clone().into_issued(), &mut o)?,
+            prov::Payload::Revoke(r) => {
+                let (n, k) = r.clone().unpack();
+                agree!(&n, r.class_name(), "RevocationRequest::unpack vs class_name()");
+                agree!(k, r.key(), "RevocationRequest::unpack vs key()");
+                let el: &prov::KeyElement = r;
+                agree!(el.class_name(), r.class_name(), "KeyElement::class_name vs RevocationRequest::class_name");
+                agree!(*el.key(), r.key(), "KeyElement::key vs RevocationRequest::key");
+                agree!(prov::RevocationResponse::from(r), prov::RevocationResponse::new(el.clone()), "RevocationResponse::from(&request) vs ::new(key element)");
+                o.push(format!("key(class={:?},ski={}) {el}", r.class_name().as_ref(), r.key()));
+            }
+            prov::Payload::RevokeResponse(r) => { let el: &prov::KeyElement = r; o.push(format!("key(class={:?},ski={}) {el}", el.class_name().as_ref(), el.key())) }
+            prov::Payload::ErrorResponse(e) => {
+                let shown = e.to_string();
+                let want = match e.description() { None => e.status().to_string(), Some(d) => format!("{} - {}", e.status(), d) };
+                agree!(shown, want, "NotPerformedResponse Display vs status() / description()");
+                o.push(format!("status={} description={:?}", e.status(), e.description()));
+            }
+        }
+        Ok(o)
+    }
+}
+
+fn sweep_tagged(kind: &str, tag: Option<&String>, uri: &uri::Rsync, content: Option<&Base64>, hash: Option<&Hash>, o: &mut Vec<String>) -> Result<(), String> {
+    if let Some(c) = content { sweep_base64(c, "content", o)? }
+    o.push(format!("{kind}(tag={tag:?},uri={uri},hash={:?})", hash.map(|h| h.to_string())));
+    Ok(())
+}
+
+impl Sweep for publ::Message {
+    fn sweep(&self) -> Result<Vec<String>, String> {
+        let mut o = Vec::new();
+        match (self, self.clone().as_query(), self.clone().as_reply()) {
+            (publ::Message::Query(q), Ok(q2), Err(_)) => agree!(q, &q2, "as_query vs the variant"),
+            (publ::Message::Reply(r), Err(_), Ok(r2)) => agree!(r, &r2, "as_reply vs the variant"),
+            _ => return Err("as_query / as_reply disagree with the variant".into()),
+        }
+        match self {
+            publ::Message::Query(publ::Query::List) => o.push("query.list".into()),
+            publ::Message::Query(publ::Query::Delta(d)) => {
+                let els = d.clone().into_elements();
+                agree!(d.len(), els.len(), "PublishDelta::len vs into_elements()");
+                agree!(d.is_empty(), els.is_empty(), "PublishDelta::is_empty vs into_elements()");
+                agree!(&(d.clone() + publ::PublishDelta::empty()), d, "delta + empty");
+                for el in els { match el {
+                    publ::PublishDeltaElement::Publish(p) => {
+                        let (t, u, c) = p.clone().unpack();
+                        agree!(t.as_ref(), p.tag(), "Publish::unpack vs tag()"); agree!(&u, p.uri(), "Publish::unpack vs uri()"); agree!(&c, p.content(), "Publish::unpack vs content()");
+                        sweep_tagged("publish", p.tag(), p.uri(), Some(p.content()), None, &mut o)?;
+                    }
+                    publ::PublishDeltaElement::Update(p) => {
+                        let (t, u, c, h) = p.clone().unpack();
+                        agree!(t.as_ref(), p.tag(), "Update::unpack vs tag()"); agree!(&u, p.uri(), "Update::unpack vs uri()"); agree!(&c, p.content(), "Update::unpack vs content()"); agree!(&h, p.hash(), "Update::unpack vs hash()");
+                        sweep_tagged("update", p.tag(), p.uri(), Some(p.content()), Some(p.hash()), &mut o)?;
+                    }
+                    publ::PublishDeltaElement::Withdraw(p) => {
+                        let (t, u, h) = p.clone().unpack();
+                        agree!(t.as_ref(), p.tag(), "Withdraw::unpack vs tag()"); agree!(&u, p.uri(), "Withdraw::unpack vs uri()"); agree!(&h, p.hash(), "Withdraw::unpack vs hash()");
+                        sweep_tagged("withdraw", p.tag(), p.uri(), None, Some(p.hash()), &mut o)?;
+                    }
+                }}
+            }
+            publ::Message::Reply(publ::Reply::List(l)) => {
+                let els = l.clone().into_elements();
+                agree!(&els, l.elements(), "ListReply::into_elements vs elements()");
+                let wd = l.clone().into_withdraw_delta();
+                agree!(wd.len(), els.len(), "into_withdraw_delta().len() vs elements()");
+                let mut want = publ::PublishDelta::empty();
+                for e in &els {
+                    let (u, h) = e.clone().unpack();
+                    agree!(&u, e.uri(), "ListElement::unpack vs uri()"); agree!(&h, e.hash(), "ListElement::unpack vs hash()");
+                    want.add_withdraw(publ::Withdraw::with_hash_tag(u, h));
+                    o.push(format!("list(uri={},hash={})", e.uri(), e.hash()));
+                }
+                agree!(wd, want, "into_withdraw_delta vs Withdraw::with_hash_tag over the elements");
+            }
+            publ::Message::Reply(publ::Reply::Success) => o.push("success".into()),
+            publ::Message::Reply(publ::Reply::ErrorReply(e)) => {
+                o.push(format!("errors={} {e}", e.errors().len()));
+                for r in e.errors() { o.push(format!("{r:?}")) }
+            }
+        }
+        Ok(o)
+    }
+}
+
+// The sibling's verdict per (ID certificate content, instant); instant 0 = "now". Only the reference side is
+// remembered, the function under test runs for every message.
+thread_local! {
+    static SIBLING: std::cell::RefCell<BTreeMap<(u64, i64), Option<(u64, i64, i64)>>> = const { std::cell::RefCell::new(BTreeMap::new()) };
+    /// set while the parsed twin of a message is swept in the quick tier: the signature-checking validate()
+    /// family is a function of id_cert() alone, which the twin comparison covers; thorough runs it on the twin too
+    static SKIP_VALIDATE: std::cell::Cell<bool> = const { std::cell::Cell::new(false) };
+}
+
+fn sibling(id: &Base64, key: i64) -> Option<(u64, i64, i64)> {
+    let k = (fnv64(id.as_str().as_bytes()), key);
+    if let Some(v) = SIBLING.with(|m| m.borrow().get(&k).copied()) { return v }
+    let when = if key == 0 { Time::now() } else { Time::new(chrono::DateTime::from_timestamp(key, 0).unwrap()) };
+    let v = idx::validate_idcert_at(id, when).ok().map(|c| (fnv64(c.to_captured().as_slice()), c.validity().not_before().timestamp(), c.validity().not_after().timestamp()));
+    SIBLING.with(|m| m.borrow_mut().insert(k, v));
+    v
+}
+
+/// validate() is validate_at(now): same verdict, same certificate.
+fn sweep_validate(id: &Base64, run: &dyn Fn() -> Result<rpki::ca::idcert::IdCert, idx::Error>, o: &mut Vec<String>) -> Result<(), String> {
+    if SKIP_VALIDATE.get() { return Ok(()) }
+    let got = run();
+    let sib = sibling(id, 0);
+    match (&got, &sib) {
+        (Ok(a), Some(b)) => agree!(fnv64(a.to_captured().as_slice()), b.0, "validate() vs validate_idcert_at(id_cert(), now): certificate"),
+        (Err(_), None) => {}
+        _ => return Err(format!("validate() is_ok = {} but validate_idcert_at(id_cert(), Time::now()) is_ok = {}", got.is_ok(), sib.is_some())),
+    }
+    // decades away from now the sibling's verdict must follow the certificate's own validity, whatever the clock says
+    if let Some((_, nb, na)) = sib {
+        for t in [Time::utc(1990, 1, 1, 0, 0, 0).timestamp(), Time::utc(2200, 1, 1, 0, 0, 0).timestamp()] {
+            agree!(sibling(id, t).is_some(), nb <= t && t <= na, format!("validate_idcert_at at timestamp {t} vs the certificate's own validity"));
+        }
+    }
+    o.push(format!("validate.is_ok={}", got.is_ok()));
+    Ok(())
+}
+
+fn xml_variants(vec: &dyn Fn() -> Vec<u8>, string: &dyn Fn() -> String, display: &dyn Fn() -> String) -> Result<(), String> {
+    if SKIP_VALIDATE.get() { return Ok(()) }   // quick tier, parsed twin: equal to the constructed value, whose three serialisations were compared
+    let string = string();
+    agree!(string.as_bytes(), vec().as_slice(), "to_xml_string vs to_xml_vec");
+    agree!(display(), string, "Display vs to_xml_string");
+    Ok(())
+}
+
+impl Sweep for idx::ChildRequest {
+    fn sweep(&self) -> Result<Vec<String>, String> {
+        let mut o = Vec::new();
+        sweep_base64(self.id_cert(), "id_cert", &mut o)?;
+        sweep_handle(self.child_handle(), "child_handle", &mut o)?;
+        let (i, h, t) = self.clone().unpack();
+        agree!(&i, self.id_cert(), "unpack vs id_cert()"); agree!(&h, self.child_handle(), "unpack vs child_handle()"); agree!(t.as_ref(), self.tag(), "unpack vs tag()");
+        xml_variants(&|| self.to_xml_vec(), &|| self.to_xml_string(), &|| self.to_string())?;
+        sweep_validate(self.id_cert(), &|| self.validate(), &mut o)?;
+        o.push(format!("tag={:?}", self.tag()));
+        Ok(o)
+    }
+}
+
+impl Sweep for idx::ParentResponse {
+    fn sweep(&self) -> Result<Vec<String>, String> {
+        let mut o = Vec::new();
+        sweep_base64(self.id_cert(), "id_cert", &mut o)?;
+        sweep_handle(self.parent_handle(), "parent_handle", &mut o)?;
+        sweep_handle(self.child_handle(), "child_handle", &mut o)?;
+        agree!(self.service_uri().to_string(), self.service_uri().as_str(), "ServiceUri Display vs as_str");
+        xml_variants(&|| self.to_xml_vec(), &|| self.to_xml_string(), &|| self.to_string())?;
+        sweep_validate(self.id_cert(), &|| self.validate(), &mut o)?;
+        sweep_validate(self.id_cert(), &|| self.validate_at(Time::now()), &mut o)?;
+        o.push(format!("service_uri={} tag={:?}", self.service_uri(), self.tag()));
+        Ok(o)
+    }
+}
+
+impl Sweep for idx::PublisherRequest {
+    fn sweep(&self) -> Result<Vec<String>, String> {
+        let mut o = Vec::new();
+        sweep_base64(self.id_cert(), "id_cert", &mut o)?;
+        sweep_handle(self.publisher_handle(), "publisher_handle", &mut o)?;
+        let (i, h, t) = self.clone().unpack();
+        agree!(&i, self.id_cert(), "unpack vs id_cert()"); agree!(&h, self.publisher_handle(), "unpack vs publisher_handle()"); agree!(t.as_ref(), self.tag(), "unpack vs tag()");
+        xml_variants(&|| self.to_xml_vec(), &|| self.to_xml_string(), &|| self.to_string())?;
+        sweep_validate(self.id_cert(), &|| self.validate(), &mut o)?;
+        o.push(format!("tag={:?}", self.tag()));
+        Ok(o)
+    }
+}
+
+impl Sweep for idx::RepositoryResponse {
+    fn sweep(&self) -> Result<Vec<String>, String> {
+        let mut o = Vec::new();
+        sweep_base64(self.id_cert(), "id_cert", &mut o)?;
+        sweep_handle(self.publisher_handle(), "publisher_handle", &mut o)?;
+        agree!(self.service_uri().to_string(), self.service_uri().as_str(), "ServiceUri Display vs as_str");
+        let info = self.repo_info();
+        agree!(info.base_uri(), self.sia_base(), "RepoInfo::base_uri vs sia_base()");
+        agree!(info.rpki_notify(), self.rrdp_notification_uri(), "RepoInfo::rpki_notify vs rrdp_notification_uri()");
+        agree!(info, &idx::RepoInfo::new(self.sia_base().clone(), self.rrdp_notification_uri().cloned()), "repo_info() vs RepoInfo::new over the accessors");
+        agree!(&info.ca_repository(""), self.sia_base(), "ca_repository(\"\") vs sia_base()");
+        // ca_repository / resolve are sia_base.join(..): compared with the joins done here
+        let ns = self.sia_base().join(b"ns/").map_err(|e| format!("sia_base().join(\"ns/\"): {e}"))?;
+        agree!(info.ca_repository("ns"), ns, "ca_repository(\"ns\") vs sia_base().join(\"ns/\")");
+        agree!(info.resolve("ns", "f.cer"), ns.join(b"f.cer").map_err(|e| e.to_string())?, "resolve(\"ns\", file) vs join");
+        agree!(info.resolve("", "f.cer"), self.sia_base().join(b"f.cer").map_err(|e| e.to_string())?, "resolve(\"\", file) vs join");
+        xml_variants(&|| self.to_xml_vec(), &|| self.to_xml_string(), &|| self.to_string())?;
+        sweep_validate(self.id_cert(), &|| self.validate(), &mut o)?;
+        o.push(format!("service_uri={} sia_base={} rrdp={:?} tag={:?}", self.service_uri(), self.sia_base(), self.rrdp_notification_uri().map(|u| u.to_string()), self.tag()));
+        Ok(o)
+    }
+}
+
 //============ Round-trip driver =============================================
 
 #[derive(Default)]
@@ -663,11 +970,27 @@ impl Collector {
 }
 
 /// One evaluation of oracles (i) and (ii) on a message.
-fn roundtrip<M: PartialEq + std::fmt::Debug>(
+fn roundtrip<M: PartialEq + std::fmt::Debug + Sweep>(
     ctx: &Ctx, area: &str, l: &mut Local, m: &M, wit: &dyn Fn() -> String,
     write: &dyn Fn(&M) -> Vec<u8>, parse: &dyn Fn(&[u8]) -> Result<M, String>,
 ) {
+    roundtrip_g(ctx, area, l, m, wit, write, parse, &|_| Ok(()))
+}
+
+/// `given`: the accessors of `m` against the constructor arguments the enumeration used.
+#[allow(clippy::too_many_arguments)]
+fn roundtrip_g<M: PartialEq + std::fmt::Debug + Sweep>(
+    ctx: &Ctx, area: &str, l: &mut Local, m: &M, wit: &dyn Fn() -> String,
+    write: &dyn Fn(&M) -> Vec<u8>, parse: &dyn Fn(&[u8]) -> Result<M, String>,
+    given: &dyn Fn(&M) -> Result<(), String>,
+) {
     l.evals += 1;
+    let swept = match guard(|| (m.sweep(), given(m))) {
+        Err(p) => { l.fail(ctx, format!("C11.{area}.accessors.nopanic"), wit, p); None }
+        Ok((Err(e), _)) => { l.fail(ctx, format!("C11.{area}.accessors.consistent"), wit, e); None }
+        Ok((Ok(_), Err(e))) => { l.fail(ctx, format!("C11.{area}.accessors.given"), wit, e); None }
+        Ok((Ok(s), Ok(()))) => Some(s),
+    };
     let doc = match guard(|| write(m)) {
         Ok(d) => d,
         Err(p) => { l.fail(ctx, format!("C11.{area}.write.nopanic"), wit, p); l.bump("write-panicked"); return }
@@ -689,7 +1012,17 @@ fn roundtrip<M: PartialEq + std::fmt::Debug>(
         Err(p) => l.fail(ctx, format!("C11.{area}.roundtrip.parse"), wit, format!("parser panicked on the library's own output: {p}")),
         Ok(Err(e)) => l.fail(ctx, format!("C11.{area}.roundtrip.parse"), wit,
             format!("parse(write(m)) = Err({e}); document: {}", trunc(&String::from_utf8_lossy(&doc), 400))),
-        Ok(Ok(back)) => if &back != m {
+        Ok(Ok(back)) => if &back == m {
+            // the parsed twin answers every accessor like the constructed value
+            if let Some(mut s) = swept { match guard(|| { SKIP_VALIDATE.set(!ctx.tier.is_thorough()); let r = back.sweep(); SKIP_VALIDATE.set(false); r }) {
+                Err(p) => l.fail(ctx, format!("C11.{area}.accessors.nopanic"), wit, format!("on the parsed twin: {p}")),
+                Ok(Err(e)) => l.fail(ctx, format!("C11.{area}.accessors.consistent"), wit, format!("on the parsed twin: {e}")),
+                Ok(Ok(t)) => { if !ctx.tier.is_thorough() { s.retain(|x| !x.starts_with("validate.")) } if t != s {
+                    let i = s.iter().zip(t.iter()).position(|(a, b)| a != b).unwrap_or(s.len().min(t.len()));
+                    l.fail(ctx, format!("C11.{area}.accessors.twin"), wit, format!("constructed: {:?}; parsed twin: {:?}", s.get(i).map(|x| trunc(x, 200)), t.get(i).map(|x| trunc(x, 200))));
+                }}
+            }}
+        } else {
             l.fail(ctx, format!("C11.{area}.roundtrip.equal"), wit,
                 format!("parse(write(m)) != m; got {}; document: {}", trunc(&format!("{back:?}"), 300), trunc(&String::from_utf8_lossy(&doc), 300)));
         }
@@ -717,6 +1050,57 @@ fn pub_write(m: &publ::Message) -> Vec<u8> { m.to_xml_bytes().to_vec() }
 fn pub_parse(b: &[u8]) -> Result<publ::Message, String> { publ::Message::decode(b).map_err(|e| e.to_string()) }
 fn prov_write(m: &prov::Message) -> Vec<u8> { m.to_xml_bytes().to_vec() }
 fn prov_parse(b: &[u8]) -> Result<prov::Message, String> { prov::Message::decode(b).map_err(|e| e.to_string()) }
+
+//--- accessors against the constructor arguments of the enumerations
+
+fn given_delta(fx: &Fx, want: &[El], m: &publ::Message) -> Result<(), String> {
+    let got = match m.clone().as_query() { Ok(publ::Query::Delta(d)) => d.into_elements(), _ => return Err("Message::delta(..) is not a delta query".into()) };
+    agree!(got.len(), want.len(), "number of elements");
+    for (g, e) in got.iter().zip(want) {
+        let content = Base64::from_content(&fx.contents[e.content]);
+        let tag = match e.kind { 0..=2 => fx.tag(e.tag), 3 | 4 => Some(content.to_hash().to_string()), _ => Some(fx.hashes[e.hash].to_string()) };
+        let (t, u, c, h) = match g {
+            publ::PublishDeltaElement::Publish(p) if e.kind % 3 == 0 => (p.tag(), p.uri(), Some(p.content()), None),
+            publ::PublishDeltaElement::Update(p) if e.kind % 3 == 1 => (p.tag(), p.uri(), Some(p.content()), Some(p.hash())),
+            publ::PublishDeltaElement::Withdraw(p) if e.kind % 3 == 2 => (p.tag(), p.uri(), None, Some(p.hash())),
+            _ => return Err("element kind differs from the constructor used".into()),
+        };
+        agree!(t, tag.as_ref(), "tag() vs the tag given");
+        agree!(u, &fx.rsyncs[e.uri], "uri() vs the uri given");
+        if let Some(c) = c { agree!(c.to_bytes().as_ref(), fx.contents[e.content].as_slice(), "content().to_bytes() vs the content given") }
+        if let Some(h) = h { agree!(h, &fx.hashes[e.hash], "hash() vs the hash given") }
+    }
+    Ok(())
+}
+
+fn given_hh(fx: &Fx, m: &prov::Message, s: usize, r: usize) -> Result<(), String> {
+    agree!(m.sender().as_str(), fx.handles[s].as_str(), "sender() vs the handle given");
+    agree!(m.recipient().as_str(), fx.handles[r].as_str(), "recipient() vs the handle given");
+    Ok(())
+}
+
+fn given_issued(fx: &Fx, want: Issued, got: &prov::IssuedCert) -> Result<(), String> {
+    agree!(got.uri(), &fx.rsyncs[want.uri], "IssuedCert::uri() vs the uri given");
+    agree!(got.req_limit(), &fx.limit(want.la, want.lb, want.lc), "IssuedCert::req_limit() vs the limit given");
+    agree!(cert_id(got.cert()), cert_id(&fx.certs[want.cert % fx.certs.len()].1), "IssuedCert::cert() vs the certificate given");
+    Ok(())
+}
+
+fn given_class(fx: &Fx, want: &Class, got: &prov::ResourceClassEntitlements) -> Result<(), String> {
+    agree!(got.class_name().as_ref(), fx.texts[want.name + 1].as_str(), "class_name() vs the name given");
+    agree!(got.resource_set(), &ResourceSet::new(fx.asn[want.asn].clone(), fx.v4[want.v4].clone(), fx.v6[want.v6].clone()), "resource_set() vs the set given");
+    agree!(got.not_after(), fx.times[want.time], "not_after() vs the time given");
+    agree!(got.signing_cert().url(), &fx.rsyncs[want.url], "signing_cert().url() vs the url given");
+    agree!(cert_id(got.signing_cert().cert()), cert_id(&fx.certs[want.signing % fx.certs.len()].1), "signing_cert().cert() vs the certificate given");
+    agree!(got.issued_certs().len(), want.issued.len(), "issued_certs().len()");
+    for (g, w) in got.issued_certs().iter().zip(&want.issued) { given_issued(fx, *w, g)? }
+    Ok(())
+}
+
+fn given_id(fx: &Fx, got: &Base64, i: usize) -> Result<(), String> {
+    agree!(got.to_bytes().as_ref(), fx.idcerts[i].1.as_slice(), "id_cert().to_bytes() vs the content given");
+    Ok(())
+}
 
 //============ RFC 8181 publication messages =================================
 
@@ -790,7 +1174,7 @@ fn space_publication(ctx: &Ctx, fx: &Fx) {
         // fields a kind does not use stay on their first core value, so that no message is built twice
         if (e.kind >= 3 && e.tag != 0) || (e.kind % 3 == 0 && e.hash != 2) || (e.kind % 3 == 2 && e.content != 0) { return }
         let m = delta_of(fx, &[e]);
-        roundtrip(ctx, "pub", l, &m, &|| format!("pub.delta[{}]", show_el(fx, e)), &pub_write, &pub_parse);
+        roundtrip_g(ctx, "pub", l, &m, &|| format!("pub.delta[{}]", show_el(fx, e)), &pub_write, &pub_parse, &|m| given_delta(fx, &[e], m));
     });
     sp.set("alphabet_sizes", serde_json::json!({"kinds": 6, "tags": fx.n_tags(), "uris": fx.rsyncs.len(), "contents": fx.contents.len(), "hashes": fx.hashes.len(), "k": k}));
     sp.sample_str(|| String::from_utf8_lossy(&pub_write(&delta_of(fx, &[El { kind: 1, tag: special, uri: 3, content: 3, hash: 2 }]))).into_owned());
@@ -813,7 +1197,7 @@ fn space_publication(ctx: &Ctx, fx: &Fx) {
         rpki_verif::engine::enumerate::seq_at(n, 3, *i, &mut s);
         let els: Vec<El> = s.iter().map(|j| alpha[*j]).collect();
         let m = delta_of(fx, &els);
-        roundtrip(ctx, "pub", l, &m, &|| format!("pub.delta[{}]", els.iter().map(|e| show_el(fx, *e)).collect::<Vec<_>>().join(", ")), &pub_write, &pub_parse);
+        roundtrip_g(ctx, "pub", l, &m, &|| format!("pub.delta[{}]", els.iter().map(|e| show_el(fx, *e)).collect::<Vec<_>>().join(", ")), &pub_write, &pub_parse, &|m| given_delta(fx, &els, m));
     });
     sp.set("element_alphabet", serde_json::json!(alpha.len()));
     col.finish(true, "all sequences of length <= 3");
@@ -835,7 +1219,12 @@ fn space_publication(ctx: &Ctx, fx: &Fx) {
         let m = if i % 2 == 0 { publ::Message::list_reply(publ::ListReply::new(els)) } else {
             let mut r = publ::ListReply::empty(); for e in els { r.add_element(e) } publ::Message::list_reply(r)
         };
-        roundtrip(ctx, "pub", &mut l, &m, &|| format!("pub.list_reply[{}]", s.iter().map(|j| format!("(uri#{},hash#{})", lel[*j].0, lel[*j].1)).collect::<Vec<_>>().join(",")), &pub_write, &pub_parse);
+        roundtrip_g(ctx, "pub", &mut l, &m, &|| format!("pub.list_reply[{}]", s.iter().map(|j| format!("(uri#{},hash#{})", lel[*j].0, lel[*j].1)).collect::<Vec<_>>().join(",")), &pub_write, &pub_parse, &|m| {
+            let got = match m.clone().as_reply() { Ok(publ::Reply::List(l)) => l.into_elements(), _ => return Err("list_reply(..) is not a list reply".into()) };
+            agree!(got.len(), s.len(), "elements().len()");
+            for (g, j) in got.iter().zip(&s) { agree!(g.uri(), &fx.rsyncs[lel[*j].0], "ListElement::uri() vs the uri given"); agree!(g.hash(), &fx.hashes[lel[*j].1], "ListElement::hash() vs the hash given") }
+            Ok(())
+        });
     }
     for (u, uri) in fx.rsyncs.iter().enumerate() {
         let m = publ::Message::list_reply(publ::ListReply::new(vec![publ::ListElement::new(uri.clone(), fx.hashes[0])]));
@@ -849,7 +1238,11 @@ fn space_publication(ctx: &Ctx, fx: &Fx) {
             r.add_error(publ::ReportError::with_code(CODES[a].clone()));
             r.add_error(publ::ReportError::with_code(CODES[b].clone()));
             let m = publ::Message::error(r);
-            roundtrip(ctx, "pub", &mut l, &m, &|| format!("pub.error[{},{}]", CODES[a], CODES[b]), &pub_write, &pub_parse);
+            roundtrip_g(ctx, "pub", &mut l, &m, &|| format!("pub.error[{},{}]", CODES[a], CODES[b]), &pub_write, &pub_parse, &|m| {
+                match m.clone().as_reply() { Ok(publ::Reply::ErrorReply(e)) => { agree!(e.errors().len(), 2usize, "errors().len()");
+                    agree!(e.errors()[0], publ::ReportError::with_code(CODES[a].clone()), "errors()[0] vs the report given"); agree!(e.errors()[1], publ::ReportError::with_code(CODES[b].clone()), "errors()[1] vs the report given"); Ok(()) }
+                    _ => Err("error(..) is not an error reply".into()) }
+            });
         }
     }
     col.merge(l);
@@ -914,15 +1307,22 @@ fn space_provisioning(ctx: &Ctx, fx: &Fx) {
     let cases = star2(&[nh, nh], &[nhm, nhm], &[&core_h, &core_h], 2);
     run_cases(&cases, &col, |c, l| {
         let m = prov::Message::list(fx.handle(c[0]), fx.handle(c[1]));
-        roundtrip(ctx, "prov", l, &m, &|| format!("prov.list({})", show_hh(fx, c[0], c[1])), &prov_write, &prov_parse);
+        roundtrip_g(ctx, "prov", l, &m, &|| format!("prov.list({})", show_hh(fx, c[0], c[1])), &prov_write, &prov_parse, &|m| given_hh(fx, m, c[0], c[1]));
     });
     let cases = star2(&[2, nh, nh, fx.n_classes(), fx.keys.len()], &[2, nhm, nhm, ncm, fx.keys.len()], &[&[0, 1], &core_h, &long_h, &core_class, &[2, 3]], 2);
     run_cases(&cases, &col, |c, l| {
         let req = prov::RevocationRequest::new(fx.class(c[3]), fx.keys[c[4]]);
         let m = if c[0] == 0 { prov::Message::revoke(fx.handle(c[1]), fx.handle(c[2]), req) }
             else { prov::Message::revoke_response(fx.handle(c[1]), fx.handle(c[2]), prov::RevocationResponse::from(&req)) };
-        roundtrip(ctx, "prov", l, &m, &|| format!("prov.{}({},class={},key={})", ["revoke", "revoke_response"][c[0]], show_hh(fx, c[1], c[2]),
-            show(&trunc(&fx.texts[c[3] + 1], 80)), fx.keys[c[4]]), &prov_write, &prov_parse);
+        roundtrip_g(ctx, "prov", l, &m, &|| format!("prov.{}({},class={},key={})", ["revoke", "revoke_response"][c[0]], show_hh(fx, c[1], c[2]),
+            show(&trunc(&fx.texts[c[3] + 1], 80)), fx.keys[c[4]]), &prov_write, &prov_parse, &|m| {
+                given_hh(fx, m, c[1], c[2])?;
+                let el: &prov::KeyElement = match m.payload() { prov::Payload::Revoke(r) if c[0] == 0 => r, prov::Payload::RevokeResponse(r) if c[0] == 1 => r,
+                    _ => return Err("payload kind differs from the constructor used".into()) };
+                agree!(el.class_name().as_ref(), fx.texts[c[3] + 1].as_str(), "class_name() vs the name given");
+                agree!(el.key(), &fx.keys[c[4]], "key() vs the key given");
+                Ok(())
+            });
     });
     let errs: [(u64, fn() -> prov::NotPerformedResponse); 11] = [
         (1101, prov::NotPerformedResponse::err_1101), (1102, prov::NotPerformedResponse::err_1102), (1103, prov::NotPerformedResponse::err_1103),
@@ -933,7 +1333,15 @@ fn space_provisioning(ctx: &Ctx, fx: &Fx) {
     for (code, f) in errs { for h in [0usize, fx.h_slash255] {
         let m = prov::Message::not_performed_response(fx.handle(h), fx.handle(0), f()).expect("constructor");
         if m.payload().payload_type().as_ref() != "error_response" { ctx.machinery_error("unexpected payload type") }
-        roundtrip(ctx, "prov", &mut l, &m, &|| format!("prov.error_response({},code={code})", show_hh(fx, h, 0)), &prov_write, &prov_parse);
+        roundtrip_g(ctx, "prov", &mut l, &m, &|| format!("prov.error_response({},code={code})", show_hh(fx, h, 0)), &prov_write, &prov_parse, &|m| {
+            given_hh(fx, m, h, 0)?;
+            match m.payload() { prov::Payload::ErrorResponse(e) => {
+                agree!(e.status(), code, "status() vs the err_NNNN constructor used");
+                agree!(e, &f(), "payload() vs the response given");
+                if e.description().is_none_or(|d| d.is_empty()) { return Err("err_NNNN() without a description".into()) }
+                Ok(()) }
+                _ => Err("payload kind differs from the constructor used".into()) }
+        });
     }}
     col.merge(l);
     sp.sample_str(|| String::from_utf8_lossy(&prov_write(&prov::Message::revoke(fx.handle(0), fx.handle(1), prov::RevocationRequest::new(fx.class(special), fx.keys[3])))).into_owned());
@@ -953,8 +1361,16 @@ fn space_provisioning(ctx: &Ctx, fx: &Fx) {
     cases.sort(); cases.dedup();
     run_cases(&cases, &col, |c, l| {
         let m = prov::Message::issue(fx.handle(c[0]), fx.handle(0), prov::IssuanceRequest::new(fx.class(c[1]), fx.limit(c[2], c[3], c[4]), fx.csrs[c[5]].1.clone()));
-        roundtrip(ctx, "prov", l, &m, &|| format!("prov.issue({},class={},{},csr={})", show_hh(fx, c[0], 0), show(&trunc(&fx.texts[c[1] + 1], 80)),
-            show_limit(fx, c[2], c[3], c[4]), fx.csrs[c[5]].0), &prov_write, &prov_parse);
+        roundtrip_g(ctx, "prov", l, &m, &|| format!("prov.issue({},class={},{},csr={})", show_hh(fx, c[0], 0), show(&trunc(&fx.texts[c[1] + 1], 80)),
+            show_limit(fx, c[2], c[3], c[4]), fx.csrs[c[5]].0), &prov_write, &prov_parse, &|m| {
+                given_hh(fx, m, c[0], 0)?;
+                match m.payload() { prov::Payload::Issue(r) => {
+                    agree!(r.class_name().as_ref(), fx.texts[c[1] + 1].as_str(), "class_name() vs the name given");
+                    agree!(r.limit(), &fx.limit(c[2], c[3], c[4]), "limit() vs the limit given");
+                    agree!(r.csr().to_captured().as_slice(), fx.csrs[c[5]].1.to_captured().as_slice(), "csr() vs the CSR given");
+                    Ok(()) }
+                    _ => Err("payload kind differs from the constructor used".into()) }
+            });
     });
     sp.set("limit_product", serde_json::json!(na * nb * nc));
     sp.sample_str(|| String::from_utf8_lossy(&prov_write(&prov::Message::issue(fx.handle(0), fx.handle(0), prov::IssuanceRequest::new(fx.class(special), fx.limit(6, 8, 8), fx.csrs[0].1.clone())))).into_owned());
@@ -979,7 +1395,12 @@ fn space_provisioning(ctx: &Ctx, fx: &Fx) {
         let e = class_of(fx, &cl);
         let m = prov::Message::issue_response(fx.handle(0), fx.handle(1), prov::IssuanceResponse::new(
             e.class_name().clone(), e.resource_set().clone(), e.not_after(), e.issued_certs()[0].clone(), e.signing_cert().clone()));
-        roundtrip(ctx, "prov", l, &m, &|| format!("prov.issue_response({},{})", show_hh(fx, 0, 1), show_class(fx, &cl)), &prov_write, &prov_parse);
+        roundtrip_g(ctx, "prov", l, &m, &|| format!("prov.issue_response({},{})", show_hh(fx, 0, 1), show_class(fx, &cl)), &prov_write, &prov_parse, &|m| {
+            given_hh(fx, m, 0, 1)?;
+            given_class(fx, &cl, &e)?;
+            match m.payload() { prov::Payload::IssueResponse(r) => given_issued(fx, cl.issued[0], &r.clone().into_issued()),
+                _ => Err("payload kind differs from the constructor used".into()) }
+        });
     });
     sp.set("resource_product", serde_json::json!(fx.asn.len() * fx.v4.len() * fx.v6.len()));
     col.finish(true, &format!("star product, k = {k}, plus all resource-set triples"));
@@ -1002,7 +1423,15 @@ fn space_provisioning(ctx: &Ctx, fx: &Fx) {
         rpki_verif::engine::enumerate::seq_at(n, 2, *i, &mut s);
         let m = prov::Message::list_response(fx.handle(0), fx.handle(1),
             prov::ResourceClassListResponse::new(s.iter().map(|j| class_of(fx, &calpha[*j])).collect()));
-        roundtrip(ctx, "prov", l, &m, &|| format!("prov.list_response({},[{}])", show_hh(fx, 0, 1), s.iter().map(|j| show_class(fx, &calpha[*j])).collect::<Vec<_>>().join(";")), &prov_write, &prov_parse);
+        roundtrip_g(ctx, "prov", l, &m, &|| format!("prov.list_response({},[{}])", show_hh(fx, 0, 1), s.iter().map(|j| show_class(fx, &calpha[*j])).collect::<Vec<_>>().join(";")), &prov_write, &prov_parse, &|m| {
+            given_hh(fx, m, 0, 1)?;
+            agree!(m.is_list_response(), true, "is_list_response() of a list response");
+            match m.payload() { prov::Payload::ListResponse(r) => {
+                agree!(r.classes().len(), s.len(), "classes().len()");
+                for (g, j) in r.classes().iter().zip(&s) { given_class(fx, &calpha[*j], g)? }
+                Ok(()) }
+                _ => Err("payload kind differs from the constructor used".into()) }
+        });
     });
     sp.set("class_alphabet", serde_json::json!(calpha.len()));
     col.finish(true, "all sequences of <= 2 classes x <= 2 certificates");
@@ -1020,10 +1449,10 @@ fn space_idexchange(ctx: &Ctx, fx: &Fx) {
     let col = Collector::new(sp.clone());
     let special = 1 + fx.texts.iter().position(|t| t == "<&").unwrap_or(3);
     let plain = 1 + fx.texts.iter().position(|t| t == "a").unwrap_or(1);
-    let core_tag = [0usize, 1, plain, special];
+    let core_tag = [0usize, plain, special];   // Some("") (index 1) is met as a roaming value
     let core_h = [0usize, fx.h_slash255];
     let (nhm, ntm) = (fx.handles_mid, fx.n_tags_mid());
-    let core_id = [0usize, 4];
+    let core_id = [4usize, 3];   // short contents; the real ID certificates (and 1 KiB) roam, paired with every other field
     let nid = fx.idcerts.len();
     let ns = fx.services.len();
     let id = |i: usize| Base64::from_content(&fx.idcerts[i].1);
@@ -1031,32 +1460,57 @@ fn space_idexchange(ctx: &Ctx, fx: &Fx) {
     let cases = star2(&[nid, nh], &[nid, nhm], &[&core_id, &core_h], k);
     run_cases(&cases, &col, |c, l| {
         let m = idx::ChildRequest::new(id(c[0]), fx.handle(c[1]));
-        roundtrip(ctx, "idex", l, &m, &|| format!("idex.child_request(id_cert={},child_handle={})", fx.idcerts[c[0]].0, trunc(&fx.handles[c[1]], 40)),
-            &|m| m.to_xml_vec(), &|b| idx::ChildRequest::parse(b).map_err(idx_err));
+        roundtrip_g(ctx, "idex", l, &m, &|| format!("idex.child_request(id_cert={},child_handle={})", fx.idcerts[c[0]].0, trunc(&fx.handles[c[1]], 40)),
+            &|m| m.to_xml_vec(), &|b| idx::ChildRequest::parse(b).map_err(idx_err), &|m| {
+                given_id(fx, m.id_cert(), c[0])?;
+                agree!(m.child_handle().as_str(), fx.handles[c[1]].as_str(), "child_handle() vs the handle given");
+                agree!(m.tag(), None, "tag() of ChildRequest::new");
+                Ok(())
+            });
     });
     let cases = star2(&[nid, nh, nh, ns, fx.n_tags()], &[nid, nhm, nhm, ns, ntm], &[&core_id, &core_h, &core_h[..1], &[fx.svc_plain, fx.svc_special], &core_tag], k);
     run_cases(&cases, &col, |c, l| {
         let m = idx::ParentResponse::new(id(c[0]), fx.handle(c[1]), fx.handle(c[2]), fx.services[c[3]].clone(), fx.tag(c[4]));
-        roundtrip(ctx, "idex", l, &m, &|| format!("idex.parent_response(id_cert={},parent_handle={},child_handle={},service_uri={},tag={})", fx.idcerts[c[0]].0,
+        roundtrip_g(ctx, "idex", l, &m, &|| format!("idex.parent_response(id_cert={},parent_handle={},child_handle={},service_uri={},tag={})", fx.idcerts[c[0]].0,
             trunc(&fx.handles[c[1]], 40), trunc(&fx.handles[c[2]], 40), trunc(fx.services[c[3]].as_str(), 80), show_opt(&fx.tag(c[4]))),
-            &|m| m.to_xml_vec(), &|b| idx::ParentResponse::parse(b).map_err(idx_err));
+            &|m| m.to_xml_vec(), &|b| idx::ParentResponse::parse(b).map_err(idx_err), &|m| {
+                given_id(fx, m.id_cert(), c[0])?;
+                agree!(m.parent_handle().as_str(), fx.handles[c[1]].as_str(), "parent_handle() vs the handle given");
+                agree!(m.child_handle().as_str(), fx.handles[c[2]].as_str(), "child_handle() vs the handle given");
+                agree!(m.service_uri(), &fx.services[c[3]], "service_uri() vs the uri given");
+                agree!(m.tag(), fx.tag(c[4]).as_ref(), "tag() vs the tag given");
+                Ok(())
+            });
     });
     let cases = star2(&[nid, nh, fx.n_tags(), 2], &[nid, nhm, ntm, 2], &[&core_id, &core_h, &core_tag, &[0, 1]], k);
     run_cases(&cases, &col, |c, l| {
         let m = if c[3] == 0 { idx::PublisherRequest::new(id(c[0]), fx.handle(c[1]), fx.tag(c[2])) } else {
             let mut m = idx::PublisherRequest::new(id(c[0]), fx.handle(0), fx.tag(c[2])); m.set_publisher_handle(fx.handle(c[1])); m };
-        roundtrip(ctx, "idex", l, &m, &|| format!("idex.publisher_request(id_cert={},publisher_handle={},tag={})", fx.idcerts[c[0]].0,
+        roundtrip_g(ctx, "idex", l, &m, &|| format!("idex.publisher_request(id_cert={},publisher_handle={},tag={})", fx.idcerts[c[0]].0,
             trunc(&fx.handles[c[1]], 40), show_opt(&fx.tag(c[2]))),
-            &|m| m.to_xml_vec(), &|b| idx::PublisherRequest::parse(b).map_err(idx_err));
+            &|m| m.to_xml_vec(), &|b| idx::PublisherRequest::parse(b).map_err(idx_err), &|m| {
+                given_id(fx, m.id_cert(), c[0])?;
+                agree!(m.publisher_handle().as_str(), fx.handles[c[1]].as_str(), "publisher_handle() vs the handle given");
+                agree!(m.tag(), fx.tag(c[2]).as_ref(), "tag() vs the tag given");
+                Ok(())
+            });
     });
     let nr = fx.rsyncs.len(); let nhs = fx.httpss.len() + 1;
     let cases = star2(&[nid, nh, ns, nr, nhs, fx.n_tags()], &[nid, nhm, ns, nr, nhs, ntm], &[&core_id[..1], &core_h[..1], &[fx.svc_plain, fx.svc_special], &[3], &[0, 5], &core_tag], k);
     run_cases(&cases, &col, |c, l| {
         let rrdp = if c[4] == 0 { None } else { Some(fx.httpss[c[4] - 1].clone()) };
         let m = idx::RepositoryResponse::new(id(c[0]), fx.handle(c[1]), fx.services[c[2]].clone(), fx.rsyncs[c[3]].clone(), rrdp.clone(), fx.tag(c[5]));
-        roundtrip(ctx, "idex", l, &m, &|| format!("idex.repository_response(id_cert={},publisher_handle={},service_uri={},sia_base={},rrdp={:?},tag={})", fx.idcerts[c[0]].0,
+        roundtrip_g(ctx, "idex", l, &m, &|| format!("idex.repository_response(id_cert={},publisher_handle={},service_uri={},sia_base={},rrdp={:?},tag={})", fx.idcerts[c[0]].0,
             trunc(&fx.handles[c[1]], 40), trunc(fx.services[c[2]].as_str(), 80), trunc(fx.rsyncs[c[3]].as_str(), 80), rrdp.as_ref().map(|u| trunc(u.as_str(), 80)), show_opt(&fx.tag(c[5]))),
-            &|m| m.to_xml_vec(), &|b| idx::RepositoryResponse::parse(b).map_err(idx_err));
+            &|m| m.to_xml_vec(), &|b| idx::RepositoryResponse::parse(b).map_err(idx_err), &|m| {
+                given_id(fx, m.id_cert(), c[0])?;
+                agree!(m.publisher_handle().as_str(), fx.handles[c[1]].as_str(), "publisher_handle() vs the handle given");
+                agree!(m.service_uri(), &fx.services[c[2]], "service_uri() vs the uri given");
+                agree!(m.sia_base(), &fx.rsyncs[c[3]], "sia_base() vs the uri given");
+                agree!(m.rrdp_notification_uri(), rrdp.as_ref(), "rrdp_notification_uri() vs the uri given");
+                agree!(m.tag(), fx.tag(c[5]).as_ref(), "tag() vs the tag given");
+                Ok(())
+            });
     });
     sp.set("alphabet_sizes", serde_json::json!({"id_certs": nid, "handles": nh, "service_uris": ns, "tags": fx.n_tags(), "rsync": nr, "https": nhs, "k": k}));
     sp.sample_str(|| String::from_utf8_lossy(&idx::RepositoryResponse::new(id(2), fx.handle(3), fx.services[fx.svc_special].clone(), fx.rsyncs[3].clone(), Some(fx.httpss[4].clone()), fx.tag(special)).to_xml_vec()).into_owned());
@@ -1242,6 +1696,49 @@ fn space_seeds(ctx: &Ctx, fx: &Fx) {
             ctx.machinery_error(format!("hand-written seed {name} is not well-formed: {e}"))
         }
         seed_case(ctx, &mut l, *p, name, doc.as_bytes(), true);
+    }
+    // --- the CMS wrappers of the captured exchanges: message() / into_message() / unpack() agree, and the
+    // wall-clock validate() gives the verdict of validate_at(now) (signature checks themselves belong to C10)
+    {
+        let ta_key = rpki::ca::idcert::IdCert::decode(read("ca/sigmsg/cms_ta.cer").as_slice()).ok().map(|c| c.public_key().clone());
+        for f in ["afrinic-response.der", "apnic-response.der", "apnic-testbed-response.der", "issue-response.der", "issue.der", "list-response.ber", "list.der"] {
+            l.evals += 1;
+            let bytes = read(&format!("ca/rfc6492/{f}"));
+            let wit = || format!("seed.cms(rfc6492/{f})");
+            match guard(|| prov::ProvisioningCms::decode(bytes.as_slice())) {
+                Err(p) => ctx.fail("C11.parse.nopanic.provisioning", wit(), p),
+                Ok(Err(_)) => l.bump("seed-not-accepted"),
+                Ok(Ok(cms)) => {
+                    l.bump("cms-decoded");
+                    ctx.check("C11.seed.accessors.consistent", wit, || {
+                        let m = cms.message().clone();
+                        agree!(cms.clone().into_message(), m, "ProvisioningCms::into_message vs message()");
+                        agree!(cms.clone().unpack().1, m, "ProvisioningCms::unpack vs message()");
+                        agree!(prov::Message::decode(cms.clone().unpack().0.content().to_bytes().as_ref()).map_err(|e| e.to_string())?, m, "message() vs decoding the signed content");
+                        if let Some(k) = &ta_key { agree!(cms.validate(k).is_ok(), cms.validate_at(k, Time::now()).is_ok(), "ProvisioningCms::validate vs validate_at(now)") }
+                        m.sweep().map(|_| ())
+                    });
+                }
+            }
+        }
+        l.evals += 1;
+        let bytes = read("ca/sigmsg/pdu_200.der");
+        match guard(|| publ::PublicationCms::decode(bytes.as_slice())) {
+            Err(p) => ctx.fail("C11.parse.nopanic.publication", "seed.cms(sigmsg/pdu_200.der)", p),
+            Ok(Err(_)) => l.bump("seed-not-accepted"),
+            Ok(Ok(cms)) => {
+                l.bump("cms-decoded");
+                ctx.check("C11.seed.accessors.consistent", || "seed.cms(sigmsg/pdu_200.der)".into(), || {
+                    let m = cms.clone().into_message();
+                    agree!(cms.clone().unpack().1, m, "PublicationCms::unpack vs into_message()");
+                    if let Some(k) = &ta_key {
+                        for t in [Time::now(), Time::utc(1990, 1, 1, 0, 0, 0), Time::utc(2200, 1, 1, 0, 0, 0)] { let _ = cms.validate_at(k, t); }
+                        agree!(cms.validate(k).is_ok(), cms.validate_at(k, Time::now()).is_ok(), "PublicationCms::validate vs validate_at(now)");
+                    }
+                    m.sweep().map(|_| ())
+                });
+            }
+        }
     }
     // a not-after with fractional seconds (xsd:dateTime admits them; chrono's DateTime carries them)
     {
